@@ -11,11 +11,13 @@ from ..abstools import Table, W, Model, Interp, Undecided
 from ..absval import Raised
 
 LEVEL_TEXT = ('static analysis (effect / alias fix-point over the whole call graph + dominance rules): decides that no pipeline entry point or '
-              'non-in-place array method may mutate an argument object, that every random draw is dominated by a constant seed, that pool results'
-              ' are consumed in submission order and the fan-out drivers (read counting, pileup, segmentation), interpreted for 1 and 3 '
-              'processes, hand every unit of work to the same worker with the same options in the same order (rules of C09-D5 / C03-D5; the '
-              'chunker on all small inputs), that no hidden module state is written, and that ensure_path() precedes the promised writes.  Does '
-              'not decide floating-point run-to-run equality (follows from these only modulo library determinism).')
+              'non-in-place array method may mutate an argument object, that every random draw is dominated by a constant seed and none comes '
+              'from a generator object that outlives the call (module-level, default-argument or class-attribute RandomState / default_rng), that'
+              ' pool results are consumed in submission order and the fan-out drivers (read counting, pileup, segmentation), interpreted for 1 '
+              'and 3 processes, hand every unit of work to the same worker with the same options in the same order (rules of C09-D5 / C03-D5; the'
+              ' chunker on all small inputs), that no hidden module state is written, that ensure_path() precedes the promised writes, and -- '
+              'interpreted over a small file-system model -- never overwrites or loses an existing file (k writes leave k files).  Does not '
+              'decide floating-point run-to-run equality (follows from these only modulo library determinism).')
 
 # methods that are in-place by contract (documented mutators) -- everything else on the array classes must leave self alone
 IN_PLACE = {"__init__", "__setitem__", "__delitem__", "add", "sort", "sort_columns", "center_all", "shuffle"}
